@@ -16,7 +16,7 @@ import numpy
 from .. import tree  # noqa: F401
 import numpoly
 
-from ..alpha import alpha, alpha_raw, wellformed, build_checked, model_of, spec
+from ..alpha import alpha, alpha_raw, wellformed, build_checked, model_of, spec, raw_view
 from ..model import V, exact_array, ONE
 from .. import space, ops
 from . import C01
@@ -117,7 +117,7 @@ def expected_triple(exps, coefs, names, rc, rn):
 
 
 def triple_cases():
-    out = []
+    out = [{"k": "rename"}]
     for D in (1, 2):
         for N in (1, 2, 3):
             mats = exps_matrices(D, N)
@@ -222,6 +222,48 @@ def run_dupnames(case, R):
                             R.outcome(("dupnames", exps, coefs, ctor, str(cfg["eff"])))
                             continue
                         R.fail(ctor, "accepted-duplicates", f"duplicate names {names} accepted for exponents {exps} coefficients {coefs} {kw} {gl}: {p!r}"[:400], tags=tags)
+
+
+def run_rename(case, R):
+    """polynomial / aspolynomial of a polynomial with names=: the same exponents and coefficients under the new names, which
+    replace the old ones position by position (one string for several indeterminates is a prefix that gets numbered)"""
+    inputs = [spec(("q1",), (), [((2,), 1), ((0,), -3)]), spec(("q0", "q1"), (2,), [((2, 0), [1, 0]), ((0, 1), [3, -1]), ((0, 0), [0, 2])]),
+              spec(("q0", "q2", "q10"), (), [((1, 0, 2), 2), ((0, 1, 0), -1)], "f8"), spec(("q3",), (3,), [((1,), [1, 2, 3])])]
+    for sp in inputs:
+        old = tuple(sp["n"])
+        k_ = len(old)
+        p, m = build_checked(sp), model_of(sp)
+        R.state(("rename", old))
+        forms = [("same tuple", old, old), ("other tuple", tuple(f"q{3 + 2 * i}" for i in range(k_)), None), ("list", [f"q{7 + i}" for i in range(k_)], None),
+                 ("unsorted tuple", tuple(f"q{9 - i}" for i in range(k_)), None), ("indeterminants", numpoly.symbols(" ".join(f"q{20 + i}" for i in range(k_))) if k_ > 1 else numpoly.symbols("q20"), tuple(f"q{20 + i}" for i in range(k_))),
+]
+        if k_ > 1:
+            forms.append(("prefix 'q'", "q", tuple(f"q{i}" for i in range(k_))))
+        if k_ == 1:
+            forms += [("one complete name 'q4'", "q4", ("q4",)), ("one complete name 'q12'", "q12", ("q12",))]
+        else:
+            forms += [("prefix 'q5' for several", "q5", tuple(f"q5{i}" for i in range(k_)))]
+        for lab, arg, new in forms:
+            new = tuple(new if new is not None else arg)
+            ren = dict(zip(old, new))
+            want = V({frozenset((ren[n_], e_) for n_, e_ in mono): c_ for mono, c_ in m.t.items()}, m.shape)
+            for ctor, f in (("aspolynomial", lambda: numpoly.aspolynomial(p, names=arg)), ("polynomial", lambda: numpoly.polynomial(p, names=arg)),
+                            ("polynomial(values)", lambda: numpoly.polynomial(numpy.array(raw_view(p)), names=arg)),
+                            ("from_attributes", lambda: numpoly.polynomial_from_attributes(p.exponents, p.coefficients, arg))):
+                R.tr()
+                tags = ["rename", f"names={lab}"]
+                try:
+                    got = f()
+                except Exception as err:  # noqa: BLE001
+                    R.fail(ctor, "exception", f"{ctor}(p over {old}, names={arg!r}): {type(err).__name__}: {err}", tags=tags)
+                    continue
+                probs = wellformed(got) if isinstance(got, numpoly.ndpoly) else [f"type {type(got).__name__}"]
+                if not probs and (tuple(got.shape) != m.shape or alpha(got) != want or not set(new) >= {n_ for mo in want.t for n_, _ in mo} or tuple(got.names) != new):
+                    probs.append(f"got {got!r} with names {got.names}, expected names {new} and {want!r}")
+                if probs:
+                    R.fail(ctor, "wrong-value", f"{ctor}(p over {old}, names={arg!r}): " + "; ".join(map(str, probs))[:400], tags=tags)
+                else:
+                    R.outcome(("rename", old, lab, ctor))
 
 
 def run_triple1(case, R):
@@ -448,6 +490,8 @@ def run_case(case, R):
     k = case["k"]
     if case.get("via") == "C01" or k == "expr":
         C01.run_case(case, R, extra_check=extra_check)
+    elif k == "rename":
+        run_rename(case, R)
     elif k == "dupnames":
         run_dupnames(case, R)
     elif k == "triples":
